@@ -105,7 +105,7 @@ def beh_spec(name):
 def sizes_for(ctx):
     pv = 4
     base = [0, 1, pv - 1, pv, pv + 1, 16 * 1024 + 1]
-    return base if ctx.quick else base + [4096, 65535]
+    return base if ctx.quick else base + [4096, BACKUP_LIMIT - 1, BACKUP_LIMIT, BACKUP_LIMIT + 1, 200000]
 
 
 def all_cases(ctx):
